@@ -1,0 +1,216 @@
+// Copyright 2026 Dolthub, Inc.
+//
+// Licensed under the Apache License, Version 2.0 (the "License");
+// you may not use this file except in compliance with the License.
+// You may obtain a copy of the License at
+//
+//     http://www.apache.org/licenses/LICENSE-2.0
+//
+// Unless required by applicable law or agreed to in writing, software
+// distributed under the License is distributed on an "AS IS" BASIS,
+// WITHOUT WARRANTIES OR CONDITIONS OF ANY KIND, either express or implied.
+// See the License for the specific language governing permissions and
+// limitations under the License.
+
+//go:build verif
+
+package nbs
+
+import (
+	"bytes"
+	"context"
+	"errors"
+	"fmt"
+	"io"
+	"strconv"
+	"strings"
+	"time"
+
+	"github.com/dolthub/fslock"
+
+	dherrors "github.com/dolthub/dolt/go/libraries/utils/errors"
+	"github.com/dolthub/dolt/go/store/chunks"
+	"github.com/dolthub/dolt/go/store/hash"
+)
+
+// Add-only re-exports for the /verif harness (property C05). Nothing here is
+// compiled without the `verif` build tag and no existing identifier is changed.
+
+// VerifC05Spec is a tableSpec with its name in string form.
+type VerifC05Spec struct {
+	Name  string
+	Count uint32
+}
+
+// VerifC05Manifest is manifestContents with every hash in string form.
+type VerifC05Manifest struct {
+	Vers, Nbf, Lock, Root, GcGen string
+	Specs, Appendix              []VerifC05Spec
+}
+
+func verifC05From(mc manifestContents) VerifC05Manifest {
+	out := VerifC05Manifest{Vers: mc.manifestVers, Nbf: mc.nbfVers, Lock: mc.lock.String(), Root: mc.root.String(), GcGen: mc.gcGen.String()}
+	for _, s := range mc.specs {
+		out.Specs = append(out.Specs, VerifC05Spec{s.name.String(), s.chunkCount})
+	}
+	for _, s := range mc.appendix {
+		out.Appendix = append(out.Appendix, VerifC05Spec{s.name.String(), s.chunkCount})
+	}
+	return out
+}
+
+func verifC05To(m VerifC05Manifest) manifestContents {
+	mc := manifestContents{manifestVers: m.Vers, nbfVers: m.Nbf, lock: hash.Parse(m.Lock), root: hash.Parse(m.Root), gcGen: hash.Parse(m.GcGen)}
+	for _, s := range m.Specs {
+		mc.specs = append(mc.specs, tableSpec{hash.Parse(s.Name), s.Count})
+	}
+	for _, s := range m.Appendix {
+		mc.appendix = append(mc.appendix, tableSpec{hash.Parse(s.Name), s.Count})
+	}
+	return mc
+}
+
+func verifC05ErrClass(err error) string {
+	if err == nil {
+		return "ok"
+	}
+	var ne *strconv.NumError
+	msg := err.Error()
+	switch {
+	case errors.Is(err, io.EOF):
+		return "eof"
+	case errors.Is(err, ErrCorruptManifest):
+		return "corrupt"
+	case errors.Is(err, ErrManifestSpecMissingTableFile):
+		return "missing"
+	case errors.Is(err, chunks.ErrGCGenerationExpired):
+		return "gcgen"
+	case errors.Is(err, fslock.ErrTimeout):
+		return "busy"
+	case errors.As(err, &ne):
+		return "count"
+	case strings.HasPrefix(msg, "Unknown manifest version"):
+		return "version"
+	case strings.HasPrefix(msg, "invalid table file name"):
+		return "specname"
+	case strings.HasPrefix(msg, "Could not parse lock hash"):
+		return "lock"
+	case strings.HasPrefix(msg, "Could not parse GC generation hash"):
+		return "gcgenhash"
+	case strings.HasPrefix(msg, "Could not parse root hash"):
+		return "root"
+	case strings.HasPrefix(msg, "Update cannot change manifest version"):
+		return "nbf"
+	case strings.HasPrefix(msg, "new manifest created with non 0 lock"):
+		return "nonzero"
+	case strings.HasPrefix(msg, "UpdateGCGen() cannot update the root"):
+		return "gcroot"
+	case strings.HasPrefix(msg, "runtime error:"):
+		return "write"
+	}
+	return "other:" + msg
+}
+
+// VerifC05Parse runs parseManifest on |text|. A panic (hash.Parse on a
+// malformed root) is reported as the class "panic".
+func VerifC05Parse(text []byte) (m VerifC05Manifest, class string) {
+	defer func() {
+		if r := recover(); r != nil {
+			class = "panic"
+		}
+	}()
+	mc, err := parseManifest(bytes.NewReader(text))
+	if err != nil {
+		return VerifC05Manifest{}, verifC05ErrClass(err)
+	}
+	return verifC05From(mc), "ok"
+}
+
+// VerifC05Write runs writeManifest.
+func VerifC05Write(m VerifC05Manifest) ([]byte, string) {
+	var b bytes.Buffer
+	err := writeManifest(&b, verifC05To(m))
+	return b.Bytes(), verifC05ErrClass(err)
+}
+
+// VerifC05FM is a fileManifest on a directory, with its own LOCK handle.
+type VerifC05FM struct{ fm fileManifest }
+
+func VerifC05OpenFM(dir string) (*VerifC05FM, error) {
+	m, err := getFileManifest(context.Background(), dir)
+	if err != nil {
+		return nil, err
+	}
+	return &VerifC05FM{fm: m.(fileManifest)}, nil
+}
+
+func (f *VerifC05FM) Close() error { return f.fm.Close() }
+
+// Update runs fileManifest.Update (or UpdateGCGen) with the given writeHook.
+func (f *VerifC05FM) Update(gc bool, last string, m VerifC05Manifest, hook func() error) (VerifC05Manifest, string) {
+	var mc manifestContents
+	var err error
+	if gc {
+		mc, err = f.fm.UpdateGCGen(context.Background(), dherrors.FatalBehaviorError, hash.Parse(last), verifC05To(m), &Stats{}, hook)
+	} else {
+		mc, err = f.fm.Update(context.Background(), dherrors.FatalBehaviorError, hash.Parse(last), verifC05To(m), &Stats{}, hook)
+	}
+	if err != nil {
+		return VerifC05Manifest{}, verifC05ErrClass(err)
+	}
+	return verifC05From(mc), "ok"
+}
+
+// VerifC05PruneResult is what one pruneDirAsOf pass reported.
+type VerifC05PruneResult struct {
+	Deleted    int
+	Skipped    []string
+	Err        string
+	LockCalled bool
+	LockErr    string
+}
+
+// VerifC05Prune runs pruneDirAsOf on |dir| with explicit clocks. The keep set
+// is built as NomsBlockStore.PruneUnreferencedWithGrace builds it: LockManifest
+// on |locker| plus |extra| (the pruning process's own references). The two test
+// hooks of prune_grace.go are installed for the duration of the call.
+func VerifC05Prune(dir string, grace time.Duration, probe, now time.Time, locker *VerifC05FM, extra []string, afterSnapshot, underLock func(), onLock func()) (res VerifC05PruneResult) {
+	_testPruneAfterSnapshotHook = afterSnapshot
+	_testPruneUnderLockHook = underLock
+	defer func() {
+		_testPruneAfterSnapshotHook = nil
+		_testPruneUnderLockHook = nil
+	}()
+	lock := func(ctx context.Context) (hash.HashSet, func() error, error) {
+		res.LockCalled = true
+		if onLock != nil {
+			onLock()
+		}
+		lm, err := locker.fm.LockManifest(ctx)
+		if err != nil {
+			res.LockErr = verifC05ErrClass(err)
+			return nil, nil, err
+		}
+		referenced := make(hash.HashSet)
+		for _, e := range extra {
+			referenced.Insert(hash.Parse(e))
+		}
+		if lm.exists {
+			addSpecsAndAppendix(referenced, lm.contents)
+		}
+		return referenced, lm.unlock, nil
+	}
+	stats, err := pruneDirAsOf(context.Background(), dir, grace, probe, now, lock)
+	res.Deleted = stats.FilesDeleted
+	res.Skipped = stats.Skipped
+	if err != nil {
+		res.Err = fmt.Sprintf("%s", verifC05ErrClass(err))
+	}
+	return res
+}
+
+// VerifC05TempManifestPrefix / VerifC05TempTablePrefix name the temp files.
+const VerifC05TempManifestPrefix = tempManifestPrefix
+const VerifC05TempTablePrefix = tempTablePrefix
+const VerifC05ManifestFileName = manifestFileName
+const VerifC05LockFileName = lockFileName
